@@ -49,9 +49,9 @@ RULES = [
  (r"copy\.rs::<top>::unwrap", "S metric registration at first use"),
  (r"copy\.rs::into_owned_fd::unwrap#1", "G has_raw_fd() is tested by the caller"),
  (r"copy\.rs::into_owned_fd::unwrap#2", "L deregistration of a live socket"),
- (r"copy\.rs::(read|write)::unreachable", "G NullFn is only installed when have_rawfd is false, and then never called"),
- (r"copy\.rs::write::unwrap", "G each select arm is enabled only when both halves of that kind are present (have_stream / have_frames)"),
- (r"copy\.rs::write::index", "L len returned by read is at most the buffer length"),
+ (r"copy\.rs::(read|write|shutdown)::unreachable", "G NullFn is only installed when have_rawfd is false, and then never called"),
+ (r"copy\.rs::(write|shutdown)::unwrap", "G each select arm is enabled only when both halves of that kind are present (have_stream / have_frames)"),
+ (r"copy\.rs::(write|shutdown)::index", "L len returned by read is at most the buffer length"),
  (r"copy\.rs::copy_bidi::unwrap#1", "I process_request sets the connector name before copy_bidi"),
  (r"copy\.rs::copy_bidi::unwrap", "R dup()/AsyncFd::new on a live socket: fails only when the process is out of file descriptors (see DESIGN.md, finding D32)"),
 ]
